@@ -44,6 +44,9 @@ func _evalStmts(
 
 		if _defer, ok := val.(*object.DeferObj); ok {
 			deferObjs = append(deferObjs, *_defer)
+			// NOTE: defer stmt itself is evaluated as `nil`
+			// (otherwise deferObj leaks as a value if it is the last stmt)
+			val = object.BuiltInNil
 		}
 
 		if val.Type() == object.YieldType {
